@@ -1,4 +1,4 @@
-(* C19 - proofs about laying a flex container out again from the style it mutated (model/C19Relayout.v). *)
+(* C19 - proofs about laying a flex container out again (model/C19Relayout.v). *)
 From Coq Require Import QArith Qminmax List Bool Lqa Lia.
 Require Import WV.model.C19Relayout.
 Import ListNotations.
@@ -102,19 +102,19 @@ Qed.
 
 Lemma layout_nil c : c_lines c = [] -> layout c = [].
 Proof. unfold layout. intros ->. rewrite combine_nil. reflexivity. Qed.
-Lemma after_lines_nil c : c_lines c = [] -> c_lines (after c) = [].
-Proof. unfold after. simpl. intros ->. rewrite combine_nil. reflexivity. Qed.
+Lemma after_lines_nil c : c_lines c = [] -> c_lines (after_shared_style c) = [].
+Proof. unfold after_shared_style, laid_out_items. simpl. intros ->. rewrite combine_nil. reflexivity. Qed.
 
-(* ---- relayout_idempotent: an auto-height or single-line container laid out again from the styles it wrote gives
-   the same lines and the same item sizes ---- *)
-Theorem relayout_idempotent (c : container) :
-  c_cross c = None \/ (length (c_lines c) <= 1)%nat -> same_layout (layout (after c)) (layout c).
+(* ---- even with the shared style: an auto-height or single-line container laid out again from the styles it wrote
+   gives the same lines and the same item sizes ---- *)
+Theorem shared_style_idempotent_cases (c : container) :
+  c_cross c = None \/ (length (c_lines c) <= 1)%nat -> same_layout (layout (after_shared_style c)) (layout c).
 Proof.
   intros H.
   destruct (c_lines c) as [|l0 ls0] eqn:EL0.
-  { rewrite (layout_nil c EL0), (layout_nil (after c) (after_lines_nil c EL0)). constructor. }
+  { rewrite (layout_nil c EL0), (layout_nil (after_shared_style c) (after_lines_nil c EL0)). constructor. }
   rewrite <- EL0 in H.
-  unfold layout, after. simpl.
+  unfold layout, after_shared_style, laid_out_items. simpl.
   destruct (c_cross c) as [d|] eqn:EC.
   - destruct H as [H|H]; [discriminate|].
     destruct (c_lines c) as [|l [|l2 ls]] eqn:EL; [discriminate| |simpl in H; lia].
@@ -138,28 +138,40 @@ Proof.
     apply base_line_write_back.
 Qed.
 
-(* ---- and it fails for a multi-line container with a definite cross size: the witness replayed as a render ----
+(* ---- relayout_idempotent: every container laid out again gives the layout it gave the first time, and the styles
+   are the ones the caller's boxes had (the stretched sizes live on copies) ---- *)
+Lemma same_layout_refl l : same_layout l l.
+Proof. induction l as [|x l IH]; constructor; [repeat split; reflexivity|exact IH]. Qed.
+
+Theorem relayout_idempotent (c : container) :
+  after c = c /\ same_layout (layout (after c)) (layout c) /\
+  (* and what this pass laid out is what the shared-style code laid out: only the place of the write changed *)
+  c_lines (after_shared_style c) = laid_out_items c.
+Proof. destruct c as [cr g ls]. split; [reflexivity|]. split; [apply same_layout_refl|reflexivity]. Qed.
+
+(* ---- the shared-style variant fails for a multi-line container with a definite cross size: the witness the harness
+   replays (it must now give the SAME layout once and twice on the implementation) ----
    container height 100, two lines; item a: height auto (one 10 px line of text), stretched; item b: height 20.
-   first pass : lines 10 and 20, 70 px left, +35 each -> 45 / 55; a is 45 high, style['height'] := 45px
-   second pass: lines 45 and 20, 35 px left, +17.5 each -> 62.5 / 37.5 (b moves from y = 45 to y = 62.5) *)
+   first pass : lines 10 and 20, 70 px left, +35 each -> 45 / 55; a is 45 high
+   second pass from the written styles: lines 45 and 20, 35 px left, +17.5 each -> 62.5 / 37.5 *)
 Definition witness : container :=
   cmk (Some 100) 0 [[imk None 10 0 true]; [imk (Some 20) 10 0 false]].
 
 Definition normal (l : list (Q * Q * list Q)) : list (Q * Q * list Q) :=
   map (fun x => (Qred (fst (fst x)), Qred (snd (fst x)), map Qred (snd x))) l.
 
-Theorem relayout_not_idempotent :
+Theorem shared_style_variant_refuted :
   normal (layout witness) = [(45, 0, [45]); (55, 45, [20])] /\
-  normal (layout (after witness)) = [(125 # 2, 0, [45]); (75 # 2, 125 # 2, [20])] /\
-  ~ same_layout (layout (after witness)) (layout witness).
+  normal (layout (after witness)) = [(45, 0, [45]); (55, 45, [20])] /\
+  normal (layout (after_shared_style witness)) = [(125 # 2, 0, [45]); (75 # 2, 125 # 2, [20])] /\
+  ~ same_layout (layout (after_shared_style witness)) (layout witness).
 Proof.
-  split; [vm_compute; reflexivity|]. split; [vm_compute; reflexivity|].
+  split; [vm_compute; reflexivity|]. split; [vm_compute; reflexivity|]. split; [vm_compute; reflexivity|].
   intros S. inversion S as [|x y ? ? [E _] _]; subst. vm_compute in E. discriminate.
 Qed.
 
 Example relayout_idempotent_example :
-  let c := cmk None 5 [[imk None 10 2 true; imk (Some 30) 10 4 false; imk None 20 0 true]; [imk None 7 1 true]] in
-  (c_cross c = None \/ (length (c_lines c) <= 1)%nat) /\
-  map (fun x => snd x) (layout c) = map (fun x => snd x) (layout (after c)) /\
-  map (fun x => Qred (fst (fst x))) (layout c) = [34; 8].
-Proof. split; [left; reflexivity|]. split; vm_compute; reflexivity. Qed.
+  let c := cmk (Some 120) 5 [[imk None 10 2 true; imk (Some 30) 10 4 false; imk None 20 0 true]; [imk None 7 1 true]] in
+  map (fun x => Qred (fst (fst x))) (layout c) = [141 # 2; 89 # 2] /\
+  map (fun x => map Qred (snd x)) (layout (after c)) = [[137 # 2; 30; 141 # 2]; [87 # 2]].
+Proof. split; vm_compute; reflexivity. Qed.
